@@ -30,10 +30,22 @@ type faultPlan struct {
 	Mode  string `json:"mode,omitempty"`
 	K     int    `json:"k"`
 	J     int    `json:"j,omitempty"`
+	// KeepCtx: tearing the stream down does not cancel the contexts the two
+	// calls were given (they are independent of the transport and of each
+	// other, and nobody cancels them)
+	KeepCtx bool `json:"keepctx,omitempty"`
+}
+
+func mkPlan(t int, class, mode string, k, j int) faultPlan {
+	return faultPlan{Tree: t, Class: class, Mode: mode, K: k, J: j}
 }
 
 func (f faultPlan) String() string {
-	return fmt.Sprintf("tree%d %s/%s k=%d j=%d", f.Tree, f.Class, f.Mode, f.K, f.J)
+	s := fmt.Sprintf("tree%d %s/%s k=%d j=%d", f.Tree, f.Class, f.Mode, f.K, f.J)
+	if f.KeepCtx {
+		s += " keepctx"
+	}
+	return s
 }
 
 func c04Plans(tier string) []faultPlan {
@@ -43,39 +55,46 @@ func c04Plans(tier string) []faultPlan {
 	}
 	var out []faultPlan
 	for t := 0; t < trees; t++ {
+		first := len(out)
 		for k := 0; k < 28; k++ {
 			for _, m := range []string{"once", "sticky"} {
-				out = append(out, faultPlan{t, "ssend", m, k, 0})
+				out = append(out, mkPlan(t, "ssend", m, k, 0))
 			}
 			for _, m := range []string{"once", "sticky", "eof"} {
-				out = append(out, faultPlan{t, "rrecv", m, k, 0})
+				out = append(out, mkPlan(t, "rrecv", m, k, 0))
 			}
 		}
 		for k := 0; k < 8; k++ {
 			for _, m := range []string{"once", "sticky", "eof"} {
-				out = append(out, faultPlan{t, "srecv", m, k, 0})
+				out = append(out, mkPlan(t, "srecv", m, k, 0))
 			}
 			for _, m := range []string{"once", "sticky"} {
-				out = append(out, faultPlan{t, "rsend", m, k, 0})
+				out = append(out, mkPlan(t, "rsend", m, k, 0))
 			}
 		}
 		for k := 0; k < 64; k++ {
-			out = append(out, faultPlan{t, "cancelS", "", k, 0}, faultPlan{t, "cancelR", "", k, 0})
+			out = append(out, mkPlan(t, "cancelS", "", k, 0), mkPlan(t, "cancelR", "", k, 0))
 		}
 		for k := 0; k < 14; k++ {
-			out = append(out, faultPlan{t, "walk", "", k, 0}, faultPlan{t, "hasher", "", k, 0}, faultPlan{t, "notify", "", k, 0})
+			out = append(out, mkPlan(t, "walk", "", k, 0), mkPlan(t, "hasher", "", k, 0), mkPlan(t, "notify", "", k, 0))
 		}
 		for k := 0; k < 6; k++ {
 			for j := 0; j < 5; j++ {
-				out = append(out, faultPlan{t, "read", "", k, j})
+				out = append(out, mkPlan(t, "read", "", k, j))
 			}
 		}
+		// every plan again over a transport whose teardown leaves the two
+		// contexts alone
+		for _, pl := range out[first:] {
+			pl.KeepCtx = true
+			out = append(out, pl)
+		}
 		for k := 0; k < 26; k++ {
-			out = append(out, faultPlan{t, "sigkill", "", k, 0})
+			out = append(out, mkPlan(t, "sigkill", "", k, 0))
 		}
 	}
 	for i := 0; i < fan; i++ {
-		out = append(out, faultPlan{i, "fanout", []string{"rsend-sticky", "cancelR", "cancelS", "srecv-sticky", "ssend-sticky", "rrecv-eof", "notify-backlog", "hasher-backlog", "cancelR-backlog", "teardown-backlog"}[i%10], 0, (i / 10) % 2})
+		out = append(out, mkPlan(i, "fanout", []string{"rsend-sticky", "cancelR", "cancelS", "srecv-sticky", "ssend-sticky", "rrecv-eof", "notify-backlog", "hasher-backlog", "cancelR-backlog", "teardown-backlog"}[i%10], 0, (i/10)%2))
 	}
 	return out
 }
@@ -194,7 +213,7 @@ func c04Run(c *core.Ctx) *core.Result {
 	sf := newSynthFS(src)
 	nrec := newNotifyRec()
 	hs := newHasher()
-	cfg := wire.Config{Cap: []int{0, 1, 8}[plan.K%3]}
+	cfg := wire.Config{Cap: []int{0, 1, 8}[plan.K%3], TeardownKeepsContexts: plan.KeepCtx}
 	var pair *wire.Pair
 	var ops atomic.Int64
 	sticky := atomic.Bool{}
@@ -337,7 +356,7 @@ func c04Judge(c *core.Ctx, r *core.Result, plan faultPlan, res *syncRes, src *tr
 		}
 		d := det()
 		d["fsutil_goroutines"] = frames
-		r.ViolateD("no-return-after-teardown", d, "%s: after the stream was torn down the process is quiescent but a call has not returned (send returned=%v, receive returned=%v)", desc, res.SendDone, res.RecvDone)
+		r.ViolateD("no-return-after-teardown", d, "%s: after the stream was torn down the process is quiescent but a call has not returned (send returned=%v, receive returned=%v at that point)", desc, res.SendDoneAtDeadlock, res.RecvDoneAtDeadlock)
 		return
 	}
 	if res.TimedOut {
@@ -346,6 +365,7 @@ func c04Judge(c *core.Ctx, r *core.Result, plan faultPlan, res *syncRes, src *tr
 	}
 	// (b) leaks: the transport is gone once both calls returned
 	res.Pair.Teardown()
+	defer res.Pair.Release()
 	if leak, dump, inconclusive := leakCheck(); leak {
 		d := det()
 		d["leaked"] = dump
